@@ -78,8 +78,18 @@ def gen_targeted(run, n):
                 stmts.append(("assign", ("text", r["pfx"], q), g.lit() if rng.random() < 0.7 else g.inf(1)))
             elif c < 0.75:
                 stmts.append(("delext", r["pfx"], q, (not fields_only) and rng.random() < 0.4))
-            elif c < 0.85:
-                stmts.append(("assigninf", ("text", r["pfx"], q), ("noop",), ("call", "int", False, [g.equery()]), ji(0)))
+            elif c < 0.9:
+                # the read-only-near path is the ok target, the err target, or both (each is verified separately)
+                tq = ("text", r["pfx"], q)
+                other = rng.choice([("noop",), ("tvar", "okv", []), ("text", "event", [f("zz")])])
+                call = ("call", "int", False, [g.equery()])
+                c2 = rng.random()
+                if c2 < 0.4:
+                    stmts.append(("assigninf", tq, other, call, ji(0)))
+                elif c2 < 0.85:
+                    stmts.append(("assigninf", other, tq, call, ji(0)))
+                else:
+                    stmts.append(("assigninf", tq, ("text", r["pfx"], near(rng, r["path"]) if not fields_only else q + [f("e")]), call, ji(0)))
             else:
                 stmts.append(g.stmt(1))
         stmts.append(lit(ji(1)))
